@@ -58,7 +58,7 @@ P = ".google.example.cl.v1."
 Book, Shelf = EC.cls(P + "Book"), EC.cls(P + "Shelf")
 M = {n: EC.cls(P + n) for n in ("GetBookRequest", "CreateBookRequest", "UpdateBookRequest", "DeleteBookRequest",
                                "TagBookRequest", "MoveBookRequest", "StreamBooksRequest", "UploadRequest", "ProbeRequest", "ShelveBookRequest",
-                               "ImportRequest", "ListBooksRequest", "ListBooksResponse", "WriteBookRequest",
+                               "ImportRequest", "RetagBookRequest", "Tagged", "ListBooksRequest", "ListBooksResponse", "WriteBookRequest",
                                "WriteMetadata", "RouteRequest")}
 FieldMask = EC.cls(".google.protobuf.FieldMask")
 Empty = EC.cls(".google.protobuf.Empty")
@@ -66,7 +66,7 @@ GetOperationRequest = EC.cls(".google.longrunning.GetOperationRequest")
 
 RPCS = ["get_book", "create_book", "update_book", "delete_book", "tag_book", "move_book", "classify_book", "shelve_book", "route_override", "stream_books",
         "upload", "chat", "import_", "create_channel_", "no_sig", "ping", "touch_book", "probe", "check_operation", "mask", "list_books",
-        "write_book", "route_simple", "route_rename", "route_multi", "route_nested"]
+        "write_book", "route_simple", "route_rename", "route_multi", "route_nested", "retag_book"]
 STREAMING_REPLY = {"stream_books", "chat"}
 
 
@@ -101,7 +101,7 @@ OPTS = dict(retry="RETRY", timeout=3.5, metadata=(("a", "b"),))
 # lift every method now (at import, outside CrossHair's tracing) and give it the recording gapic_v1 shim
 METHODS = ["get_book", "create_book", "update_book", "delete_book", "tag_book", "move_book", "classify_book", "shelve_book", "route_override", "stream_books",
            "upload", "chat", "import_", "create_channel", "no_sig", "ping", "touch_book", "probe", "check_operation", "mask", "list_books",
-           "write_book", "route_simple", "route_rename", "route_multi", "route_nested"]
+           "write_book", "route_simple", "route_rename", "route_multi", "route_nested", "retag_book"]
 for _w, _c in (("client", "LibraryClient"), ("async_client", "LibraryAsyncClient")):
     for _m in METHODS:
         EC.method(_w, _c, _m).__globals__["gapic_v1"] = _shim_gapic()
@@ -141,9 +141,11 @@ def call(which, method, request, kwargs, reply="REPLY", rpc=None, opts=True):
     return ("ok", res, calls, me.validated, objs[0] if objs else None)
 
 
-def both(method, mk_request, kwargs, expect):
+def both(method, mk_request, kwargs, expect, skip=()):
     """Run the sync and the asyncio method; `expect(which)` -> (outcome, result, calls)."""
     for which in ("client", "async_client"):
+        if which in skip:
+            continue
         got = call(which, method, mk_request(), kwargs)
         exp = expect(which)
         if got[0] != exp[0]:
@@ -423,6 +425,46 @@ def flat_move_book(req_kind: int, r_name: Optional[int], k_name: Optional[int], 
             name = NAMES[r_name]
         exp = lambda _w: one_call("move_book", w, hdr(("book.name", name)))
     return both("move_book", lambda: as_kind(req_kind, M["MoveBookRequest"], fields()), kwargs, exp)
+
+
+def flat_retag_book(req_kind: int, r_tags: Optional[int], k_name: Optional[int], k_tags: Optional[int]) -> bool:
+    """
+    pre: pk(req_kind) and 0 <= req_kind <= 2 and ok_sel(r_tags, 3) and ok_sel(k_name, 3) and ok_sel(k_tags, 3)
+    pre: req_kind != 0 or r_tags is None
+    pre: lo(req_kind, k_name, k_tags)
+    post: _
+    """
+    # signature "book.name,book.tags": the repeated LEAF of a dotted entry is extended in place, on request.book
+    def fields():
+        return {} if r_tags is None else {"book": M["Tagged"](tags=list(TAGS[r_tags]))}
+    kwargs = {}
+    if k_name is not None:
+        kwargs["name"] = NAMES[k_name]
+    if k_tags is not None:
+        kwargs["tags"] = list(TAGS[k_tags])
+    if req_kind != 0 and kwargs:
+        exp = lambda w: ("ValueError", None, None)
+    else:
+        w = {}
+        name = ""
+        if req_kind == 0:
+            if k_name is not None:
+                w["book"] = {"name": NAMES[k_name]} if NAMES[k_name] else {}
+                name = NAMES[k_name]
+            if k_tags is not None:
+                # the equivalent explicit request is RetagBookRequest(book=Tagged(tags=<value>)): `book` is PRESENT, also
+                # for the empty list
+                w.setdefault("book", {})
+                if TAGS[k_tags]:
+                    w["book"]["tags"] = TAGS[k_tags]
+        elif r_tags is not None:
+            w["book"] = {"tags": TAGS[r_tags]} if TAGS[r_tags] else {}
+        exp = lambda _w: one_call("retag_book", w, hdr(("book.name", name)))
+    # known finding F11 (known_findings.txt, key async-dotted-repeated-empty): exactly the input (asyncio client, keyword
+    # arguments only, tags=[] and no name) is decided concretely by checks/_c05_known.py against the real emitted package;
+    # every other input of the asyncio client and every input of the sync client is decided here
+    skip = ("async_client",) if (req_kind == 0 and k_name is None and k_tags == 0) else ()
+    return both("retag_book", lambda: as_kind(req_kind, M["RetagBookRequest"], fields()), kwargs, exp, skip=skip)
 
 
 def flat_classify_book(req_kind: int, r_class: Optional[int], k_class: Optional[int], k_other: Optional[int]) -> bool:
@@ -939,7 +981,7 @@ def twin_route(table: Optional[int]) -> bool:
     return not (route_multi(1, table, None) and table == 3)
 
 
-C05_FUNCS = ["flat_get_book", "flat_create_book", "flat_tag_book", "flat_move_book", "flat_classify_book", "flat_shelve_book", "flat_update_book",
+C05_FUNCS = ["flat_get_book", "flat_create_book", "flat_tag_book", "flat_move_book", "flat_retag_book", "flat_classify_book", "flat_shelve_book", "flat_update_book",
              "flat_delete_book", "flat_check_operation", "flat_mask", "flat_import", "flat_stream_books"]
 C03_FUNCS = ["disp_simple", "disp_presence_only", "disp_streams", "disp_defaults", "flat_get_book", "flat_delete_book",
              "flat_stream_books", "flat_import", "flat_check_operation", "wire_list_books", "wire_write_book"]
@@ -949,7 +991,7 @@ C18_FUNCS = ["uuid_create_book", "uuid_two_calls", "uuid_absent_elsewhere"]
 EXPECTED_SIGNATURES = {
     "get_book": ["name"], "create_book": ["parent", "book", "book_id"], "update_book": ["book", "update_mask"],
     "delete_book": ["name"], "tag_book": ["name", "tags", "labels", "class_", "from_"],
-    "move_book": ["name", "other_shelf"], "classify_book": ["class_", "other_shelf"], "shelve_book": ["name", "library"],
+    "move_book": ["name", "other_shelf"], "retag_book": ["name", "tags"], "classify_book": ["class_", "other_shelf"], "shelve_book": ["name", "library"],
     "stream_books": ["parent"], "import_": ["source"],
     "check_operation": ["name"], "mask": ["paths"], "list_books": ["parent"], "write_book": ["name"],
     "no_sig": [], "ping": [], "create_channel": [], "route_simple": [], "route_multi": [],
